@@ -153,6 +153,18 @@ CLAIMED.update({
               "deterministic, independent of VERIF_SEED). Labels must be 1..m. The LP/CBC call is not modelled.", "C19"),
 })
 
+
+CLAIMED.update({
+    "C08": _m("Coq theorems (every well-formed categorical instance, any size) about a mirror model of CategoricalInstance.write/parse: "
+              "write->parse round trip through readlines and splitlines (= the stably sorted view: same category count and names, "
+              "alternative names, counts, metadata, ballots with empty categories in any position, multiplicities), non-increasing "
+              "multiplicities in file order, byte-for-byte idempotence, tokenizer/category construction inverting the ballot printer. "
+              "Tied to the code on every run: model-parse(impl-write), impl-parse(model-write), byte equality of both writers, tokenizer vs "
+              "re.findall, write-mutate-write histories on one object, unsorted categories.",
+              "Text = code points; ASCII digits only; category keys are the integers the parser produces; a ballot with zero categories is "
+              "outside the quantifier.", "C08"),
+})
+
 _PENDING = "not claimed yet: the model and check for this property are still being built (see DESIGN.md §12)"
 NOT_APPLICABLE = {f"C{i:02d}": _PENDING for i in range(1, 21) if f"C{i:02d}" not in CLAIMED}
 
